@@ -1,6 +1,7 @@
 package rules
 
 import (
+	"go/constant"
 	"go/token"
 	"fmt"
 	"go/types"
@@ -9,6 +10,7 @@ import (
 	"golang.org/x/tools/go/ssa"
 
 	"wvsa/internal/facts"
+	"wvsa/internal/load"
 )
 
 const pkgEth = N + "ethereum"
@@ -21,6 +23,7 @@ func c10(c *Ctx) {
 	p, R := c.Node(), c.R
 	R.Trust("go/types + go/ssa", "go-ethereum ethclient.TransactionReceipt returns (nil, ethereum.NotFound=\"not found\") for an unknown transaction and (nil, err) for transport errors", "the RPC node's head/receipt atomicity assumptions written in the code comments")
 	loopVarRule(c, p, "C10.loopvar", pkgEth)
+	c10headSource(c, p)
 	R.Assumption("simulated chain histories are not explored; the rules are path-universal facts at the sinks")
 	run := must(p.Method(pkgEth, "Watcher", "Run"), "ethereum.(*Watcher).Run")
 	msgChan := must(p.FieldOf(pkgEth, "Watcher", "msgChan"), "ethereum.Watcher.msgChan")
@@ -456,4 +459,99 @@ func c10source(c *Ctx, run *ssa.Function, pending *types.Var) {
 		}
 	})
 	R.Check("C10.source", "C10.source/watch-uses-filterer", c.rel(p.Pos(wl.Pos())), "WatchLogMessagePublished subscribes through that filterer into the given sink", okW, "unexpected body")
+}
+
+// c10headSource: the head the depth checks compare against is read with the block tag the watcher
+// was configured with. In getBlock, every eth_getBlockByNumber request whose tag is "latest" must
+// lie on a path with the fact !useFinalized; "finalized" needs useFinalized and !safe; "safe" needs
+// useFinalized and safe. A fallback to "latest" after a failed "finalized" query would present an
+// unfinalized head as final (zero further confirmations are required on such chains).
+func c10headSource(c *Ctx, p *load.Program) {
+	R := c.R
+	fn := must(p.Func(pkgEth, "getBlock"), "ethereum.getBlock")
+	n := 0
+	eachInstr(fn, func(i ssa.Instruction) {
+		cl, ok := i.(*ssa.Call)
+		if !ok || !cl.Call.IsInvoke() || cl.Call.Method.Name() != "RawCallContext" {
+			return
+		}
+		if k, ok := cl.Call.Args[2].(*ssa.Const); !ok || k.Value == nil || constant.StringVal(k.Value) != "eth_getBlockByNumber" {
+			return
+		}
+		// first variadic element = the tag
+		var tag ssa.Value
+		if sl, ok := cl.Call.Args[len(cl.Call.Args)-1].(*ssa.Slice); ok {
+			if al, ok := sl.X.(*ssa.Alloc); ok && al.Referrers() != nil {
+				for _, r := range *al.Referrers() {
+					if ia, ok := r.(*ssa.IndexAddr); ok && ia.Referrers() != nil {
+						if k0, isK := constInt(ia.Index); isK && k0 == 0 {
+							for _, rr := range *ia.Referrers() {
+								if st, ok := rr.(*ssa.Store); ok && st.Addr == ia {
+									tag = strip(st.Val)
+								}
+							}
+						}
+					}
+				}
+			}
+		}
+		if tag == nil {
+			R.Fail("C10.head-source", R.Key("C10.head-source", shortFn(fn), "tag"), c.rel(p.Pos(cl.Pos())), "block tag of the head query", "undecided: tag argument not found")
+			return
+		}
+		type alt struct {
+			v  ssa.Value
+			fs []string
+		}
+		var alts []alt
+		var collect func(v ssa.Value, fs []string, d int)
+		collect = func(v ssa.Value, fs []string, d int) {
+			v = resolveSpill(strip(v))
+			if ph, ok := v.(*ssa.Phi); ok && d < 4 {
+				for k, e := range ph.Edges {
+					pred := ph.Block().Preds[k]
+					ei := 0
+					for j, sc := range pred.Succs {
+						if sc == ph.Block() {
+							ei = j
+						}
+					}
+					collect(e, facts.Atoms(facts.AtEdge(pred, ei, nil)), d+1)
+				}
+				return
+			}
+			alts = append(alts, alt{v, fs})
+		}
+		collect(tag, facts.Atoms(facts.At(cl, nil)), 0)
+		has := func(fs []string, a string) bool {
+			for _, f := range fs {
+				if f == a {
+					return true
+				}
+			}
+			return false
+		}
+		for _, al := range alts {
+			n++
+			k, isK := al.v.(*ssa.Const)
+			if !isK || k.Value == nil || k.Value.Kind() != constant.String {
+				// an explicit block number (number != nil)
+				R.Check("C10.head-source", R.Key("C10.head-source", shortFn(fn), "tag:number"), c.rel(p.Pos(cl.Pos())), "an explicit block number is requested only when the caller passed one", has(al.fs, "number != nil"), "tag "+facts.Term(al.v)+" under facts "+strings.Join(al.fs, ";"))
+				continue
+			}
+			t := constant.StringVal(k.Value)
+			ok := false
+			switch t {
+			case "latest":
+				ok = has(al.fs, "!useFinalized")
+			case "finalized":
+				ok = has(al.fs, "useFinalized") && has(al.fs, "!safe")
+			case "safe":
+				ok = has(al.fs, "useFinalized") && has(al.fs, "safe")
+			}
+			R.Check("C10.head-source", R.Key("C10.head-source", shortFn(fn), "tag:"+t), c.rel(p.Pos(cl.Pos())), "the head is requested with the tag the watcher is configured for (latest only when !useFinalized; finalized/safe only when configured)", ok,
+				"tag \""+t+"\" requested under facts "+strings.Join(al.fs, ";")+": an unfinalized head would be presented as final")
+		}
+	})
+	R.Floor("C10.head-source", n, 4)
 }
